@@ -558,7 +558,7 @@ def owner_of(ss, target, idx):
 def oracle_links(ss, incompatible=()):
     """an external variable / parameter resolves to the device named by the index field"""
     import numpy as np
-    from andes.core.param import ExtParam
+    from andes.core.param import ExtParam, IdxParam
     bad = []
     for mn, m in ss.models.items():
         if m.n == 0 or not hasattr(m, 'idx'):
@@ -584,7 +584,7 @@ def oracle_links(ss, incompatible=()):
                                 % (mn, en, k, i, int(e.a[k]), om.class_name, e.src,
                                    int(src.a[u]) if len(src.a) > u else None)))
         for pn, p in m.params_ext.items():
-            if p.indexer is None or not hasattr(p, 'vin') or p.vin is None:
+            if p.indexer is None:
                 continue
             ids = list(p.indexer.v)
             for k, i in enumerate(ids):
@@ -595,8 +595,18 @@ def oracle_links(ss, incompatible=()):
                     continue
                 om, u = hits[0]
                 src = om.__dict__.get(p.src)
+                if isinstance(src, IdxParam) and k < len(p.v) and u < len(src.v):
+                    a, b = p.v[k], src.v[u]
+                    if isinstance(a, np.generic):
+                        a = a.item()
+                    if (isinstance(a, str) != isinstance(b, str)) or a != b:
+                        key = 'group-get-coerces-numeric-string' if isinstance(b, str) and not isinstance(a, str) \
+                            else 'extparam-wrong-device'
+                        bad.append((key, '%s.%s[%d] borrowed through %s idx %r is %r, the index field %s.%s of that '
+                                    'device is %r' % (mn, pn, k, p.model, i, a, om.class_name, p.src, b)))
+                    continue
                 vin = getattr(src, 'vin', None)
-                if vin is None or len(vin) <= u or k >= len(p.vin):
+                if vin is None or getattr(p, 'vin', None) is None or len(vin) <= u or k >= len(p.vin):
                     continue
                 a, b = p.vin[k], vin[u]
                 if isinstance(a, (float, np.floating)) and not (a == b or (a != a and b != b)):
